@@ -112,9 +112,30 @@ def bulk_ready(ctx, info, rng):
     return {"bulk_ready": {"cases": len(cases), "sizes": sizes, "scenarios": sorted({c["scenario"] for c in cases})}}
 
 
+def other_store_visibility(ctx, info, rng):
+    """two store objects on one SQLite file (the gateway and `hookaido mcp` in direct mode, or two gateways): a message made ready through
+    the OTHER object - enqueued, requeued from the DLQ, nacked, or leased by a process that died - is returned by this object's next
+    dequeue (exactly min(batch, ready), attempt counter as the model gives it), however long this object has been polling an empty queue"""
+    d = os.path.join(ctx.scratch, "tv")
+    cases = [{"scenario": sc, "polls": p} for sc in ("other-enqueues", "other-leases-and-dies", "other-requeues-dead", "other-nacks") for p in (0, 1, 3)]
+    rc, out, err = C.harness_run(info["hbin"], ["two-stores-visibility"], {"dir": d, "cases": cases}, timeout=300)
+    if rc != 0:
+        raise RuntimeError("two-stores-visibility failed: " + err[-1500:])
+    want_attempt = {"other-enqueues": 1, "other-leases-and-dies": 2, "other-requeues-dead": 2, "other-nacks": 2}
+    for c, o in zip(cases, json.loads(out)["cases"]):
+        if o.get("err") or o.get("got") != ["evt_1"] or o.get("attempts") != [want_attempt[c["scenario"]]] or any(o.get("before") or []):
+            C.report(ctx, "other-store:%s" % c["scenario"],
+                     "after %d empty polls by this store object, the other store object on the same file made evt_1 ready (%s); this object's next dequeue "
+                     "returned %s with attempts %s (%s); want ['evt_1'] with attempt %d" %
+                     (c["polls"], c["scenario"], o.get("got"), o.get("attempts"), o.get("err") or "no error", want_attempt[c["scenario"]]),
+                     {"kind": "history", "case": c, "observed": o})
+    return {"other_store_visibility": {"cases": len(cases)}}
+
+
 def extras(ctx, info, rng, *rest):
     cov = long_poll(ctx, info, rng)
     cov.update(bulk_ready(ctx, info, rng))
+    cov.update(other_store_visibility(ctx, info, rng))
     return cov
 
 
